@@ -10,14 +10,14 @@ m = {
  "hooks": {"guard": "verif",
            "enable": "go test -tags verif -ldflags=-checklinkname=0 (build tag 'verif': new files app/verif_on.go, app/verif_off.go, app/node/verif_on.go, identity/verif_on.go plus two one-line call sites in app/application.go Prepare() and app/controller.go handlePanic whose non-verif twins are no-ops)",
            "baseline_off_cmd": "/verif/tools/baseline.sh", "source_commits": hooks, "add_only": True},
- "engines": [{"name": "harness", "path": "/verif/harness", "serves_properties": sorted(claims),
+ "engines": [{"name": "harness", "path": "/verif/harness", "serves_properties": sorted(k for k in claims if claims[k].get("ready", True)),
               "kind_free_text": "Go module: in-process ABCI node simulator (sim), transaction builders (txgen), history generator (hist), pgregory.net/rapid property tests + native go fuzz targets per property (props/cXX), supervisor (cmd/check) that rebuilds from /repo, shards, merges evidence and maps outcomes to exit codes"}],
  "checks": [], "not_applicable": [],
  "notes": "All checks: ./check <ID> quick|thorough (cwd /verif); exit 0 held / 1 with VIOLATION line / 2 inconclusive (build failure, wall-clock guard, non-reproducible worker death). Known findings and fixed defects: /verif/known_findings.json. Per-property configuration: harness/props/cXX/check.json. Sensitivity mutants: harness/mutants, seeded changes: seeded/.",
 }
 for p in props:
     i = p['id']
-    if i in claims:
+    if i in claims and claims[i].get('ready', True):
         c = claims[i]
         chk = {"property_id": i, "quick_cmd": "./check %s quick" % i, "thorough_cmd": "./check %s thorough" % i,
                "evidence_file": "/verif/evidence/%s.json" % i, "replay_cmd_template": "./check %s --replay {path}" % i,
